@@ -180,6 +180,58 @@ impl Table {
             }
         }
     }
+    /// the same automaton restricted to the states reachable from the initial state
+    fn pruned(&self) -> Table {
+        let mut reach = self.reachable();
+        reach.sort_unstable();
+        let idx: HashMap<usize, usize> = reach.iter().enumerate().map(|(i, &q)| (q, i)).collect();
+        let k = self.chars.len();
+        let mut delta = vec![];
+        let mut fin = vec![];
+        for &q in &reach {
+            fin.push(self.fin[q]);
+            for x in 0..k {
+                delta.push(idx[&self.step(q, x)]);
+            }
+        }
+        Table { n: reach.len(), chars: self.chars.clone(), delta, fin, init: idx[&self.init] }
+    }
+    /// the quotient by Nerode equivalence among all states present
+    fn quotient(&self) -> Table {
+        let k = self.chars.len();
+        let mut cls: Vec<usize> = self.fin.iter().map(|&f| f as usize).collect();
+        loop {
+            let mut sig: HashMap<(usize, Vec<usize>), usize> = HashMap::new();
+            let mut ncls = vec![0; self.n];
+            for q in 0..self.n {
+                let s: Vec<usize> = (0..k).map(|x| cls[self.step(q, x)]).collect();
+                let l = sig.len();
+                ncls[q] = *sig.entry((cls[q], s)).or_insert(l);
+            }
+            let old: HashSet<usize> = cls.iter().copied().collect();
+            let done = sig.len() == old.len();
+            cls = ncls;
+            if done {
+                break;
+            }
+        }
+        let nc = cls.iter().collect::<HashSet<_>>().len();
+        let mut rep = vec![usize::MAX; nc];
+        for q in 0..self.n {
+            if rep[cls[q]] == usize::MAX {
+                rep[cls[q]] = q;
+            }
+        }
+        let mut delta = vec![];
+        let mut fin = vec![];
+        for c in 0..nc {
+            fin.push(self.fin[rep[c]]);
+            for x in 0..k {
+                delta.push(cls[self.step(rep[c], x)]);
+            }
+        }
+        Table { n: nc, chars: self.chars.clone(), delta, fin, init: cls[self.init] }
+    }
     fn reachable(&self) -> Vec<usize> {
         let mut seen = vec![false; self.n];
         let mut st = vec![self.init];
@@ -236,7 +288,7 @@ fn all_chars_of(k: usize) -> Vec<u32> {
 }
 
 /// one DFA case under one property oracle
-fn dfa_case(kind: DKind, n: usize, k: usize, delta: &[usize], fin: &[bool], shape: usize, rep: &mut Report) -> Vec<String> {
+fn dfa_case(kind: DKind, n: usize, k: usize, delta: &[usize], fin: &[bool], shape: usize, with_ops: bool, rep: &mut Report) -> Vec<String> {
     let mut msgs = vec![];
     let chars = all_chars_of(k);
     let lay = layout(k);
@@ -282,6 +334,9 @@ fn dfa_case(kind: DKind, n: usize, k: usize, delta: &[usize], fin: &[bool], shap
             rep.add("impl_traces", (n * chars.len()) as u64);
         }
         DKind::C04 => {
+            if n >= 2 && with_ops {
+                op_sequences(&|| build_dfa(n, k, delta, fin, shape).ok(), &chars, rep, &mut msgs);
+            }
             let r = guarded(|| {
                 let mut msgs = vec![];
                 let t = read_table(&a, &chars);
@@ -318,6 +373,9 @@ fn dfa_case(kind: DKind, n: usize, k: usize, delta: &[usize], fin: &[bool], shap
             }
         }
         DKind::C14 => {
+            if n >= 2 && with_ops {
+                op_sequences(&|| build_dfa(n, k, delta, fin, shape).ok(), &chars, rep, &mut msgs);
+            }
             let r = guarded(|| {
                 let mut msgs = vec![];
                 let mut local = Report::new();
@@ -358,6 +416,65 @@ fn dfa_case(kind: DKind, n: usize, k: usize, delta: &[usize], fin: &[bool], shap
         }
     }
     msgs
+}
+
+/// sequences of minimize (m) / remove_unreachable_states (r) applied to a freshly built automaton; after every
+/// step the automaton must have the expected number of states and the language of the original
+const OP_SEQS: [&str; 7] = ["mr", "rm", "mm", "rr", "mrm", "rmr", "mrr"];
+
+fn op_sequences(build: &dyn Fn() -> Option<Automaton>, chars: &[u32], rep: &mut Report, msgs: &mut Vec<String>) {
+    for seq in OP_SEQS {
+        let r = guarded(|| {
+            let mut msgs = vec![];
+            let mut a = match build() {
+                Some(a) => a,
+                None => return (msgs, 0, 0),
+            };
+            let orig = read_table(&a, chars);
+            let mut model = read_table(&a, chars);
+            let (mut pairs, mut steps) = (0u64, 0u64);
+            for (k, op) in seq.chars().enumerate() {
+                if op == 'm' {
+                    a.minimize();
+                    model = model.quotient();
+                } else {
+                    a.remove_unreachable_states();
+                    model = model.pruned();
+                }
+                let what = format!("after {} (step {} of sequence {})", if op == 'm' { "minimize" } else { "remove_unreachable_states" }, k + 1, seq);
+                if a.num_states() != model.n {
+                    msgs.push(format!("{}: {} states, expected {}", what, a.num_states(), model.n));
+                }
+                let (p, st, bad, reached) = orig.compare(&a);
+                pairs += p;
+                steps += st;
+                if let Some(w) = bad {
+                    msgs.push(format!("{}: the language changed (word {:?})", what, w));
+                }
+                if op == 'r' && reached.len() != a.num_states() {
+                    msgs.push(format!("{}: only {} of {} states are reachable from the initial state", what, reached.len(), a.num_states()));
+                }
+                check_counts(&a, &mut msgs);
+                if !msgs.is_empty() {
+                    break;
+                }
+            }
+            (msgs, pairs, steps)
+        });
+        match r {
+            Err(e) => msgs.push(format!("sequence {}: {}", seq, e)),
+            Ok((m, p, st)) => {
+                msgs.extend(m);
+                rep.add("states", p);
+                rep.add("transitions", st);
+                rep.add("impl_traces", st);
+                rep.inc("op_sequences");
+            }
+        }
+        if !msgs.is_empty() {
+            return;
+        }
+    }
 }
 
 /// search a bijection pi from specification keys 0..n to automaton states with pi(0) = initial state,
@@ -492,7 +609,10 @@ impl Engine for DfaEngine {
                         if self.kind == DKind::C13 {
                             rep.inc("nontrivial");
                         }
-                        let msgs = dfa_case(self.kind, n, k, &delta, &fin, shape, rep);
+                        // sequences of minimize / remove_unreachable_states: everywhere in the thorough tier; in the quick
+                        // tier for two label shapes of the small automata and a stride of the 4-state ones
+                        let with_ops = ctx.tier == Tier::Thorough || ((shape == 0 || shape == 6) && (n <= 3 || code % 16 == 3));
+                        let msgs = dfa_case(self.kind, n, k, &delta, &fin, shape, with_ops, rep);
                         if !msgs.is_empty() {
                             rep.violation(self.kind.id(), "dfa", json!({"engine": "dfa", "n": n, "k": k, "delta": delta, "final": fin, "shape": shape}), format!("DFA n={} k={} delta={:?} final={:?} shape={}: {}", n, k, delta, fin, shape, msgs.join(" | ")));
                         }
@@ -517,7 +637,7 @@ impl Engine for DfaEngine {
             rep.note("malformed dfa case".into());
             return;
         }
-        let msgs = dfa_case(self.kind, n, k, &delta, &fin, shape, rep);
+        let msgs = dfa_case(self.kind, n, k, &delta, &fin, shape, true, rep);
         if !msgs.is_empty() {
             rep.violation(self.kind.id(), "dfa", c.clone(), msgs.join(" | "));
         }
